@@ -77,7 +77,7 @@ def _check_peel(name, W, M, k, core, order, level, case, fails):
 
 def check(case, ctx):
     kind = case["kind"]
-    W = np.array(case["W"], dtype=float)
+    W = gen.layout(np.array(case["W"], dtype=float), case.get("order"))
     n = len(W)
     fails = []
     ctx.label("kind:" + kind)
@@ -102,7 +102,7 @@ def check(case, ctx):
         cores[k] = core
         if core and len(core) < nonisolated:
             ctx.mark_nontrivial({"kind": kind, "W": W, "k": k})
-        r = run(fn, W.copy(), k)
+        r = run(fn, gen.layout(W.copy(), case.get("order")), k)
         if r is None:
             continue
         try:
@@ -135,7 +135,7 @@ def check(case, ctx):
 
     if kind in ("bu", "bd") and case.get("coreness", True):
         f = bct.kcoreness_centrality_bu if kind == "bu" else bct.kcoreness_centrality_bd
-        r = run(f, W.copy())
+        r = run(f, gen.layout(W.copy(), case.get("order")))
         if r is not None:
             try:
                 cness, kn = r
@@ -226,10 +226,10 @@ def cases(draw, nmax, kinds):
         M = oc.contribution_matrix(W, "wu")
         lv = _levels_wu(M)
         pick = draw(st.lists(st.sampled_from(lv), min_size=1, max_size=4, unique=True)) if lv else [0.5]
-        return {"kind": kind, "W": W, "levels": sorted(pick)}
+        return {"kind": kind, "W": W, "levels": sorted(pick), "order": draw(st.sampled_from(gen.ORDERS))}
     W = A.astype(float)
     M = oc.contribution_matrix(W, kind)
-    return {"kind": kind, "W": W, "levels": _levels_bin(M), "coreness": True}
+    return {"kind": kind, "W": W, "levels": _levels_bin(M), "coreness": True, "order": draw(st.sampled_from(gen.ORDERS))}
 
 
 _SP = {}
